@@ -299,10 +299,16 @@ Section MapFilterFlatP.
     destruct t as [v|]; [|exact I]. destruct (p (Some v)) as [b|]; [|reflexivity]. cbn [bind].
     destruct (filter_eager p r); [exact I|rewrite IH; reflexivity|rewrite IH; reflexivity].
   Qed.
+  Lemma filter_impl_old_spec l : filter_impl_old p l = filter_spec p l.
+  Proof.
+    unfold filter_impl_old, filter_spec. pose proof (filter_eager_ok l) as H.
+    destruct (filter_eager p l); [reflexivity|symmetry; exact H|symmetry; exact H].
+  Qed.
   Lemma filter_impl_spec l : filter_impl p l = filter_spec p l.
   Proof.
-    unfold filter_impl, filter_spec. pose proof (filter_eager_ok l) as H.
-    destruct (filter_eager p l); [reflexivity|symmetry; exact H|symmetry; exact H].
+    unfold filter_spec. induction l as [|t r IH]; [reflexivity|]. cbn [filter_impl filter_strict].
+    destruct (p t) as [b|]; [|reflexivity]. cbn [bind]. rewrite IH.
+    destruct (filter_strict p r); reflexivity.
   Qed.
   Lemma filter_map_impl_spec l : filter_map_impl f p l = filter_map_spec f p l.
   Proof.
